@@ -718,6 +718,13 @@ Matrix Matrix::Inverse() const
 		// Gauss Jordan elimination
 		for(unsigned int i = 0; i < N; i++)
 		{
+			// Partial pivoting: bring the row with the largest entry in column i to the pivot position.
+			unsigned int pivot_row = i;
+			for(unsigned int j = i + 1; j < N; j++)
+				if(fabs(A[j][i]) > fabs(A[pivot_row][i]))
+					pivot_row = j;
+			if(pivot_row != i)
+				std::swap(A[i], A[pivot_row]);
 			if(A[i][i] == 0)
 			{
 				std::cerr << "Error in libphysica::Matrix::Inverse(): Diagonal element is zero." << std::endl;
